@@ -123,7 +123,6 @@ V_C04(S, e, T, aux) ==
                     realized == SDiv(upnl.pnl * SwapBase(e), Abs(p.size))
                 IN Tag(~upnl.ok \/ p.margin + realized - FundingOwed(S, v, p) >= 0,
                        "C04.baddebt_partial")
-                   \cup Tag(Sent(e, "engine", t) = 0, "C04.partial_payout")
    ELSE {})
   \cup
   (IF e.kind = "tx" /\ e.tx.c = "engine"
@@ -359,9 +358,9 @@ V_C11(S, e, T, aux) ==
         IN Tag(~Held(p2) \/ p2.lupf = Cpf(T, v), "C11.checkpoint")
            \cup (IF e.tx.m = "open_position" /\ Held(p) /\ Len(e.swaps) = 1 /\ e.swaps[1].type = "input"
                     /\ (p.dir = "add") = (e.tx.a.side = "buy")
-                 THEN \* increase: margin' = margin - funding + notional/leverage
-                      Tag(p2.margin = Max(0, p.margin - f + (((e.tx.a.margin * e.tx.a.leverage) \div S.eng.cfg.D) * S.eng.cfg.D) \div e.tx.a.leverage),
-                          "C11.charge_increase")
+                    /\ ~S.eng.cfg.native
+                 THEN \* increase: margin' = margin - funding + (collateral the trader paid into the vault)
+                      Tag(p2.margin = Max(0, p.margin - f + Sent(e, t, "engine")), "C11.charge_increase")
                  ELSE {})
            \cup (IF e.tx.m = "open_position" /\ Held(p) /\ f # 0 /\ Len(e.swaps) >= 1 /\ e.swaps[1].type = "output"
                     /\ ~S.eng.cfg.native
@@ -394,9 +393,11 @@ V_C12(S, e, T, aux) ==
                  LET n == (e.tx.a.margin * e.tx.a.leverage) \div S.eng.cfg.D
                  IN Tag(SentTo(e, "ifund") = fee(n).spread /\ SentTo(e, "fpool") = fee(n).toll, "C12.open")
             [] e.tx.m = "close_position" /\ e.tx.s \in Traders ->
+                 \* whole close: the fee the vAMM quotes for the position's open notional (the statement
+                 \* does not fix the fee base of a partial close)
                  LET p == PosOf(S, v, e.tx.s)
-                     n == IF PosOf(T, v, e.tx.s).exists THEN SwapQuote(e) ELSE p.notional
-                 IN Tag(SentTo(e, "ifund") = fee(n).spread /\ SentTo(e, "fpool") = fee(n).toll, "C12.close")
+                 IN IF PosOf(T, v, e.tx.s).exists THEN {}
+                    ELSE Tag(SentTo(e, "ifund") = fee(p.notional).spread /\ SentTo(e, "fpool") = fee(p.notional).toll, "C12.close")
             [] e.tx.m \in {"deposit_margin", "withdraw_margin"} ->
                  Tag(SentTo(e, "ifund") = 0 /\ SentTo(e, "fpool") = 0, "C12.nofee")
             [] e.tx.m \in {"liquidate", "pay_funding"} ->
@@ -483,7 +484,10 @@ V_C15(S, e, T, aux) ==
             chunk == (b * S.eng.cfg.plr) \div S.eng.cfg.D
             cq == OutputPrice(vm.cfg.D, p.dir, chunk, vm.st.x, vm.st.y)
             exch == IF Bad(cq) THEN FAIL ELSE InputPrice(vm.cfg.D, Flip(p.dir), cq, vm.st.x, vm.st.y)
-        IN Tag(whole = keeps, "C15.close_choice")
+        IN \* "closes the whole position only if doing so keeps the price inside the band": one direction
+           \* only -- a more conservative implementation (partial although the whole close would fit)
+           \* still satisfies the statement
+           Tag(whole => keeps, "C15.close_whole")
            \cup (IF ~whole
                  THEN Tag(Abs(PosOf(T, v, e.tx.s).size) = b - chunk
                           \/ (~Bad(exch) /\ Abs(PosOf(T, v, e.tx.s).size) = b - exch), "C15.close_partial")
